@@ -292,7 +292,8 @@ def check(program, modules):
 def rule(program, rep, rule_id, modules):
     res, n_fn = check(program, modules)
     for mname, inst, r, text in res:
-        rep.bad(rule_id, inst, "stale read of %s" % r.id, text, r)
+        rep.bad(rule_id, inst, "stale read of %s" % r.id, text, r,
+                positive=True)
     rep.ok(rule_id, ",".join(sorted(modules)) or "-",
            "%d function(s): no loop reads a variable of its own that the "
            "current pass may not have set" % n_fn)
